@@ -11,7 +11,9 @@ RULE = ("128-bit ints: boundaries 0,1,57^k-1,57^k,57^k+1 (k<=21), 2^128-1, 2^j, 
         "encoded, decoded, compared with the harness' own base-57 little-endian model and "
         "collected for a collision test. Strings: wrong lengths 0-40, one foreign character at "
         "every position of a valid short string, 22-character strings denoting 2^128..57^22-1, "
-        "canonical forms (braces, urn:, upper case, no hyphens). Non-trivial = boundary value, "
+        "canonical forms (braces, urn:, upper case, no hyphens), valid short strings with one junk character "
+        "(newline, blank, NUL, ...) in front of / behind them; plus 4 threads x 1500 round trips at a 1 microsecond "
+        "switch interval. Non-trivial = boundary value, "
         "value needing padding, overflow string, or foreign character case; distinct by "
         "(class, value).")
 ASSUMPTIONS = ["uuid.UUID of the standard library decides which strings are canonical forms",
@@ -158,6 +160,12 @@ def one_case(ctx, rng, alpha, seen, i):
         n = rng.choice([TOP, TOP + 1, 57 ** 22 - 1, rng.randrange(TOP, 57 ** 22),
                         TOP + rng.getrandbits(rng.randint(1, 100))])
         check_string(ctx, model_encode(n, alpha), alpha, "overflow")
+    elif r == 6 and i % 16 == 6:  # a valid short string with junk in front of / behind it
+        s = model_encode(rng.getrandbits(128) if rng.random() < 0.7 else rng.getrandbits(60), alpha)
+        junk = rng.choice(["\n", " ", "\t", "\r\n", "\x00", "\n\n", "=", "\u2028", "\x0b", "\x1c"])
+        where = rng.random()
+        s = s + junk if where < 0.5 else junk + s if where < 0.8 else s[:-1] + junk[:1]
+        check_string(ctx, s, alpha, "junk_around_valid")
     elif r == 6:  # wrong length
         ln = rng.choice([x for x in range(0, 41) if x != 22])
         pool = alpha if rng.random() < 0.7 else alpha + FOREIGN + "0123456789abcdef-"
@@ -180,9 +188,49 @@ def one_case(ctx, rng, alpha, seen, i):
             check_string(ctx, "".join(canon), alpha, "damaged_canonical")
 
 
+def concurrent_roundtrips(ctx, alpha, seed):
+    """the functions are pure: concurrent callers must not disturb each other"""
+    import random
+    import sys
+    import threading
+    errors = []
+    old = sys.getswitchinterval()
+    sys.setswitchinterval(1e-6)
+
+    def worker(k):
+        rng = random.Random(f"{seed}/{k}")
+        for _ in range(1500):
+            n = rng.getrandbits(128) if rng.random() < 0.8 else rng.getrandbits(40)
+            u = uuid.UUID(int=n)
+            try:
+                s = short_uuid.uuid_to_short_str(u)
+                back = short_uuid.uuid_from_short_str(s)
+            except Exception as err:
+                errors.append(("raises", str(n), repr(err)))
+                return
+            if s != model_encode(n, alpha) or back != u:
+                errors.append(("differs", str(n), s))
+                return
+
+    threads = [threading.Thread(target=worker, args=(k,)) for k in range(4)]
+    try:
+        for t in threads:
+            t.start()
+        for t in threads:
+            t.join(60)
+    finally:
+        sys.setswitchinterval(old)
+    ctx.count("concurrent_roundtrips", 4 * 1500)
+    if errors:
+        ctx.violation("concurrent-callers-disturb-each-other", errors[0],
+                      {"kind": "int", "value": errors[0][1], "class": "concurrent"})
+
+
 def run_shard(ctx):
     alpha = alphabet()
     seen = {}
+    ctx.evaluated()
+    concurrent_roundtrips(ctx, alpha, f"{ctx.seed}/{ctx.shard}")
     if ctx.shard == 0:
         # deterministic boundary sweep
         for k in range(23):
